@@ -279,6 +279,23 @@ func (r *Run) Finish() int {
 	if _, ok := cov["distinct_nontrivial"]; !ok {
 		cov["distinct_nontrivial"] = len(r.distinct)
 	}
+	if r.Level == "model_checking" {
+		// checks that enumerate a finite space of cases without state deduplication report, in the model-checking keys:
+		// states = distinct (case class, outcome class) keys reached, transitions = executions of the real code,
+		// traces validated = the same executions (there is no model other than the implementation)
+		if ev, ok := cov["evaluations"]; ok {
+			if _, has := cov["states"]; !has {
+				cov["states"] = cov["distinct_nontrivial"]
+				cov["states_definition"] = "distinct (case class, outcome class) keys reached by the enumeration"
+			}
+			if _, has := cov["transitions"]; !has {
+				cov["transitions"] = ev
+			}
+			if _, has := cov["traces_validated_against_impl"]; !has {
+				cov["traces_validated_against_impl"] = ev
+			}
+		}
+	}
 	oc := map[string]int{}
 	for k, v := range r.outcomes {
 		oc[k] = v
